@@ -255,14 +255,15 @@ class DeformableMirror(OpticalElement):
     def surface(self):
         '''The surface of the deformable mirror in meters.
         '''
+        # The caller always gets its own array: the cached one must not be editable from outside.
         if self._actuators_for_cached_surface is not None:
             if np.all(self.actuators == self._actuators_for_cached_surface):
-                return self._surface
+                return self._surface.copy()
 
         self._surface = self.influence_functions.linear_combination(self.actuators)
         self._actuators_for_cached_surface = self.actuators.copy()
 
-        return self._surface
+        return self._surface.copy()
 
     @property
     def opd(self):
